@@ -131,11 +131,11 @@ def scenario(ck, c, rnd, mjs, tight, scale):
         return True
     m = len(sm)
     for i in range(m - 1):
-        if abs(sm[i].end - sm[i + 1].start) > 1e-9 * size:
+        if not (abs(sm[i].end - sm[i + 1].start) <= 1e-9 * size):
             return bad('not-continuous', 'pieces %d and %d do not join: %r vs %r' % (i, i + 1, sm[i].end, sm[i + 1].start))
-    if closed and abs(sm[-1].end - sm[0].start) > 1e-9 * size:
+    if closed and not (abs(sm[-1].end - sm[0].start) <= 1e-9 * size):
         return bad('closed-path-opened', 'the result is not closed: %r vs %r' % (sm[-1].end, sm[0].start))
-    if not closed and (abs(sm[0].start - path[0].start) > 1e-9 * size or abs(sm[-1].end - path[-1].end) > 1e-9 * size):
+    if not closed and (not (abs(sm[0].start - path[0].start) <= 1e-9 * size) or not (abs(sm[-1].end - path[-1].end) <= 1e-9 * size)):
         return bad('endpoints-moved', 'end points %r / %r' % (sm[0].start, sm[-1].end), [str(path[0].start), str(path[-1].end)], [str(sm[0].start), str(sm[-1].end)])
     joints = list(range(m - 1)) + ([m - 1] if closed else [])
     for i in joints:
@@ -143,7 +143,7 @@ def scenario(ck, c, rnd, mjs, tight, scale):
             u, v = sm[i].unit_tangent(1), sm[(i + 1) % m].unit_tangent(0)
         except Exception as e:      # noqa
             return bad('tangent-undefined', 'unit tangent at joint %d of the result raised %r' % (i, e))
-        if abs(u - v) > 1e-6:
+        if not (abs(u - v) <= 1e-6):
             where = 'closing-joint' if i == m - 1 else 'joint'
             return bad('kink-left/' + where, 'kink at %s %d of the result: tangents %r / %r' % (where, i, u, v), 'equal tangents', [str(u), str(v)])
     # smooth joints keep their position and tangent
@@ -155,14 +155,14 @@ def scenario(ck, c, rnd, mjs, tight, scale):
         if not hit:
             return bad('smooth-joint-moved', 'the smooth joint at %r is no longer a joint of the result' % q)
         i = hit[0]
-        if abs(sm[i].unit_tangent(1) - de[j - 1] / abs(de[j - 1])) > 1e-6:
+        if not (abs(sm[i].unit_tangent(1) - de[j - 1] / abs(de[j - 1])) <= 1e-6):
             return bad('smooth-joint-tangent-changed', 'tangent at the smooth joint %r changed' % q)
     # stays within maxjointsize of the input
     for i in range(m):
         for t in (0.25, 0.5, 0.75):
             pt = sm[i].point(t)
             d = path.radialrange(pt)[0][0]
-            if d > mjs + 1e-9 * size:
+            if not (d <= mjs + 1e-9 * size):
                 return bad('moved-too-far', 'point %r of the result is %r away from the input (maxjointsize %r)' % (pt, d, mjs), mjs, d)
     return True
 
